@@ -350,10 +350,18 @@ impl<'a> Parser<'a> {
 
         // parse list of parameter names
         while self.current_token != Token::CloseParen {
-            if let Token::Identifier(name) = self.current_token {
-                parameters.push(name.to_owned());
-                self.advance();
-                self.skip_optional(Token::Comma);
+            match self.current_token {
+                Token::Identifier(name) => {
+                    parameters.push(name.to_owned());
+                    self.advance();
+                    self.skip_optional(Token::Comma);
+                }
+                _ => {
+                    return Err(ParseError::SyntaxError(format!(
+                        "onverwachte token. verwachtte de naam van een parameter, maar kreeg {:?}",
+                        self.current_token
+                    )))
+                }
             }
         }
         self.skip(Token::CloseParen)?;
